@@ -711,8 +711,6 @@ void Builder::setHeaderFields(const BuildFields& f)
             c.setIde(f.y & 1);
             c.setRtr(f.z & 1);
             c.setCrc(static_cast<uint16_t>(f.d & 0x7FFF));
-            if (f.x & 2)
-                c.setCrcSupport(true);
             break;
         }
         case wire::K_CANFD:
@@ -725,10 +723,6 @@ void Builder::setHeaderFields(const BuildFields& f)
             c.setRrs(f.z & 1);
             c.setCrc(f.d & 0x001FFFFF);
             c.setSbc(static_cast<uint8_t>(f.e & 7));
-            if (f.x & 2)
-                c.setSbcSupport(true);
-            if (f.x & 4)
-                c.setSbcParity(true);
             break;
         }
         case wire::K_LIN:
